@@ -12,6 +12,7 @@ Require Import Zrs.model.BitIO Zrs.model.BitStream Zrs.model.HufDec Zrs.proofs.C
 Require Import Zrs.gen.Generated Zrs.model.Headers Zrs.model.BlockDec Zrs.model.LitEnc Zrs.proofs.C13_LitSection.
 Require Import Zrs.proofs.C03_HufTable Zrs.proofs.C13_Canonical Zrs.proofs.C13_CanonCode Zrs.proofs.C13_LitAll Zrs.proofs.C13_Direct.
 Require Import Zrs.model.SeqEnc Zrs.model.FseEnc Zrs.model.WeightEnc Zrs.proofs.C12_SeqStream Zrs.proofs.C12_Desc Zrs.proofs.C13_WeightStream Zrs.proofs.C13_WeightDesc Zrs.proofs.C12_AvoidBits Zrs.proofs.C13_WeightTable Zrs.proofs.C13_WeightFinal.
+Require Import Zrs.model.FseNorm Zrs.proofs.C13_WeightModel.
 Open Scope Z_scope.
 
 Theorem C13_shape_valid : forall n, 2 <= n <= 256 ->
@@ -224,6 +225,20 @@ Theorem C13_fse_weight_description_for_every_half_bounded_distribution : forall 
     (header < 128 -> read_weights t (header :: d ++ stream ++ rest) = ROk (data, D, 1 + header)).
 Proof. exact fse_weight_description_for_every_half_bounded_distribution. Qed.
 
+(** the description exactly as the compressor builds it: histogram of the weights, normaliser with the avoid-zero-bits
+    option and limit 6, table description, two-state stream -- read back by the decoder as exactly the weights, for
+    every list of 2..257 weights (not all zero) for which the normaliser returns a distribution *)
+Theorem C13_weight_description_as_the_compressor_builds_it : forall t data al probs d rest,
+  t_max_symbol (ht_fse t) = 255 ->
+  (2 <= length data <= 257)%nat -> Forall (fun w => 0 <= w <= 255) data -> 1 <= zmax_list data ->
+  norm_counts (weight_hist data) 6 true = ROk (al, probs) -> desc_bytes al probs = Some d ->
+  exists D, fse_build_from_probabilities (ht_fse t) al probs = ROk D /\
+    let stream := stream_bytes (weight_fields (enc_of_dec D) data) in
+    let header := zlen d + zlen stream in
+    (header < 128 -> read_weights t (header :: d ++ stream ++ rest) = ROk (data, D, 1 + header)).
+Proof. exact model_weight_description_roundtrip. Qed.
+
+Print Assumptions C13_weight_description_as_the_compressor_builds_it.
 Print Assumptions C13_fse_weight_description_for_every_half_bounded_distribution.
 Print Assumptions C13_fse_compressed_weight_description_roundtrip_table.
 Print Assumptions C13_two_state_weight_stream_roundtrip.
